@@ -148,7 +148,7 @@ func structCover(name string, gen func(opts []cat.Opts, cb bool) []*cat.Catalog,
 func wideCover(name string, gen func(opts []cat.Opts, cb bool) []*cat.Catalog, opts []cat.Opts, cb bool, q, faults int) coverPlan {
 	return coverPlan{name: name + "-wide", bounds: Bounds{MaxInv: 1, MaxFaults: faults, FaultKinds: errKinds},
 		cats: func(seed int64, tier string) []*cat.Catalog {
-			return fam.Sample(gen(opts, cb), seed+17, scale(tier, q, 0))
+			return fam.Sample(gen(opts, cb), seed+17, scale(tier, q, 8*q))
 		}}
 }
 
@@ -247,7 +247,7 @@ func init() {
 		run: genericRun(stagePlan{
 			covers: []coverPlan{
 				randCover("core", tweak(small, nogroups), recBoth, 60, 500, 1),
-				structCover("chain", fam.Chain, recBoth, false, 30, 0, 2, 1),
+				structCover("chain", fam.Chain, recBoth, false, 30, 500, 2, 1),
 				wideCover("chain", fam.Chain, recBoth, false, 250, 1),
 				structCover("shadow", fam.Shadow, rec, false, 30, 0, 2, 0),
 			},
@@ -263,11 +263,11 @@ func init() {
 			repo: true,
 			covers: []coverPlan{
 				randCover("once", small, recBoth, 60, 500, 1),
-				structCover("chain", fam.Chain, recBoth, false, 25, 0, 2, 1),
+				structCover("chain", fam.Chain, recBoth, false, 25, 500, 2, 1),
 				wideCover("chain", fam.Chain, recBoth, false, 250, 1),
-				structCover("groups", fam.Groups, rec, false, 4, 0, 2, 1),
+				structCover("groups", fam.Groups, rec, false, 4, 40, 2, 1),
 				wideCover("groups", fam.Groups, rec, false, 40, 1),
-				structCover("reenter", fam.Reenter, recBoth, false, 25, 0, 2, 1),
+				structCover("reenter", fam.Reenter, recBoth, false, 25, 200, 2, 1),
 			},
 			traces: stdTraces("once", medium, 0.1, stdOpts)})})
 
@@ -278,9 +278,9 @@ func init() {
 			repo: true,
 			covers: []coverPlan{
 				randCover("lazy", small, rec, 60, 500, 0),
-				structCover("chain", fam.Chain, rec, false, 60, 0, 2, 0),
+				structCover("chain", fam.Chain, rec, false, 60, 500, 2, 0),
 				wideCover("chain", fam.Chain, rec, false, 250, 0),
-				structCover("groups", fam.Groups, rec, false, 15, 0, 2, 0),
+				structCover("groups", fam.Groups, rec, false, 15, 40, 2, 0),
 				wideCover("groups", fam.Groups, rec, false, 60, 0),
 				wideCover("reenter", fam.Reenter, rec, false, 40, 0),
 			},
@@ -296,7 +296,7 @@ func init() {
 			repo: true,
 			covers: []coverPlan{
 				randCover("missing", tweak(small, func(f *fam.Features) { f.POpt = 0.45; f.Ctors = 3; f.Types = 4; f.PGroup = 0.1 }), recBoth, 60, 500, 1),
-				structCover("chain", fam.Chain, rec, false, 40, 0, 2, 1),
+				structCover("chain", fam.Chain, rec, false, 40, 500, 2, 1),
 				wideCover("chain", fam.Chain, recBoth, false, 300, 1),
 			},
 			traces: stdTraces("missing", tweak(medium, func(f *fam.Features) { f.POpt = 0.4; f.Types = 6 }), 0.1, stdOpts)})})
@@ -310,7 +310,7 @@ func init() {
 		run: genericRun(stagePlan{
 			repo: true,
 			covers: []coverPlan{
-				structCover("reenter", fam.Reenter, deferBoth, false, 12, 0, 1, 0),
+				structCover("reenter", fam.Reenter, deferBoth, false, 12, 200, 1, 0),
 				digraphCover("digraphs-req", "req", deferBoth, 120, 2500),
 				digraphCover("digraphs-opt", "opt", deferBoth, 50, 1200),
 				digraphCover("digraphs-grp", "grp", deferBoth, 60, 1500),
@@ -322,7 +322,7 @@ func init() {
 					f.Decs = 1
 					f.PAs = 0
 				}), deferBoth, 30, 400, 0),
-				structCover("chain", fam.Chain, deferBoth, false, 15, 0, 2, 1),
+				structCover("chain", fam.Chain, deferBoth, false, 15, 500, 2, 1),
 				wideCover("chain", fam.Chain, deferBoth, false, 150, 0),
 			},
 			traces: stdTraces("cycle", tweak(medium, func(f *fam.Features) { f.Types = 3; f.PNamed = 0.05 }), 0.05, allOpts),
@@ -365,9 +365,9 @@ func init() {
 			repo: true,
 			covers: []coverPlan{
 				randCover("fault", small, recBoth, 40, 400, 2),
-				structCover("chain", fam.Chain, recBoth, true, 20, 0, 2, 2),
+				structCover("chain", fam.Chain, recBoth, true, 20, 500, 2, 2),
 				wideCover("chain", fam.Chain, recBoth, true, 200, 1),
-				structCover("groups", fam.Groups, recBoth, false, 3, 0, 2, 1),
+				structCover("groups", fam.Groups, recBoth, false, 3, 40, 2, 1),
 			},
 			traces: stdTraces("fault", medium, 0.25, stdOpts)})})
 
@@ -380,11 +380,11 @@ func init() {
 		run: genericRun(stagePlan{
 			repo: true,
 			covers: []coverPlan{
-				structCover("chain", fam.Chain, rec, false, 60, 0, 2, 0),
+				structCover("chain", fam.Chain, rec, false, 60, 500, 2, 0),
 				wideCover("chain", fam.Chain, rec, false, 300, 0),
 				structCover("shadow", fam.Shadow, rec, false, 30, 0, 2, 0),
 				wideCover("shadow", fam.Shadow, rec, false, 80, 0),
-				structCover("groups", fam.Groups, rec, false, 12, 0, 2, 0),
+				structCover("groups", fam.Groups, rec, false, 12, 40, 2, 0),
 				randCover("scopes", tweak(small, func(f *fam.Features) { f.Scopes = 3; f.Types = 2; f.PExport = 0.4; f.Decs = 0 }), rec, 40, 400, 0),
 			},
 			traces: stdTraces("scopes", tweak(medium, func(f *fam.Features) { f.Scopes = 4; f.PExport = 0.4 }), 0, stdOpts)})})
@@ -407,7 +407,7 @@ func init() {
 					f.Ctors = 4
 					f.Decs = 0
 				}), rec, 100, 800, 0),
-				structCover("keys", fam.Keys, rec, false, 40, 0, 2, 0),
+				structCover("keys", fam.Keys, rec, false, 40, 600, 2, 0),
 				wideCover("keys", fam.Keys, rec, false, 200, 0),
 			},
 			traces: stdTraces("keys", tweak(medium, func(f *fam.Features) { f.Types = 3; f.PNamed = 0.4; f.PAs = 0.3 }), 0, stdOpts),
@@ -422,7 +422,7 @@ func init() {
 		run: genericRun(stagePlan{
 			repo: true,
 			covers: []coverPlan{
-				structCover("groups", fam.Groups, rec, false, 30, 0, 2, 0),
+				structCover("groups", fam.Groups, rec, false, 30, 40, 2, 0),
 				wideCover("groups", fam.Groups, rec, false, 120, 0),
 				wideCover("softnest", fam.SoftNest, rec, false, 60, 0),
 				wideCover("keys", fam.Keys, rec, false, 100, 0),
@@ -436,8 +436,8 @@ func init() {
 		run: genericRun(stagePlan{
 			repo: true,
 			covers: []coverPlan{
-				structCover("groups", fam.Groups, rec, false, 20, 0, 2, 0),
-				structCover("softnest", fam.SoftNest, rec, false, 30, 0, 2, 1),
+				structCover("groups", fam.Groups, rec, false, 20, 40, 2, 0),
+				structCover("softnest", fam.SoftNest, rec, false, 30, 300, 2, 1),
 				wideCover("softnest", fam.SoftNest, rec, false, 120, 1),
 				wideCover("groups", fam.Groups, rec, false, 80, 0),
 				randCover("soft-rand", tweak(small, func(f *fam.Features) { groupy(f); f.PSoft = 0.6 }), rec, 80, 500, 0),
@@ -453,10 +453,10 @@ func init() {
 		run: genericRun(stagePlan{
 			repo: true,
 			covers: []coverPlan{
-				structCover("chain", fam.Chain, rec, false, 60, 0, 2, 0),
+				structCover("chain", fam.Chain, rec, false, 60, 500, 2, 0),
 				wideCover("chain", fam.Chain, rec, false, 300, 0),
 				structCover("shadow", fam.Shadow, rec, false, 30, 0, 2, 0),
-				structCover("groups", fam.Groups, rec, false, 12, 0, 2, 0),
+				structCover("groups", fam.Groups, rec, false, 12, 40, 2, 0),
 				wideCover("groups", fam.Groups, rec, false, 60, 0),
 				randCover("dec-rand", tweak(small, decy), rec, 40, 400, 0),
 			},
@@ -474,9 +474,9 @@ func init() {
 			repo: true,
 			covers: []coverPlan{
 				randCover("errors", small, recBoth, 40, 500, 2),
-				structCover("chain", fam.Chain, recBoth, true, 20, 0, 2, 2),
-				structCover("groups", fam.Groups, recBoth, false, 8, 0, 2, 1),
-				structCover("reenter", fam.Reenter, recBoth, false, 12, 0, 2, 1),
+				structCover("chain", fam.Chain, recBoth, true, 20, 500, 2, 2),
+				structCover("groups", fam.Groups, recBoth, false, 8, 40, 2, 1),
+				structCover("reenter", fam.Reenter, recBoth, false, 12, 200, 2, 1),
 			},
 			traces: stdTraces("errors", medium, 0.3, recBoth),
 			sig:    true})})
@@ -508,8 +508,8 @@ func init() {
 			covers: []coverPlan{
 				randCover("orders", small, deferBoth, 40, 400, 0),
 				randCover("orders-rejects", tweak(small, func(f *fam.Features) { f.PInvalid = 0.8; f.Types = 2; f.PNamed = 0.05 }), deferBoth, 30, 300, 0),
-				structCover("chain", fam.Chain, deferBoth, false, 50, 0, 2, 0),
-				structCover("groups", fam.Groups, deferBoth, false, 10, 0, 2, 0),
+				structCover("chain", fam.Chain, deferBoth, false, 50, 500, 2, 0),
+				structCover("groups", fam.Groups, deferBoth, false, 10, 40, 2, 0),
 				digraphCover("digraphs-grp", "grp", deferBoth, 60, 800),
 			},
 			traces: pairTraces("orders", tweak(medium, func(f *fam.Features) { f.PInvalid = 0.5 }), deferBoth, []string{"perm", "perm", "scope-early", "scope-late", "defer"}, 25, 300)})})
@@ -521,8 +521,8 @@ func init() {
 			repo: true,
 			covers: []coverPlan{
 				randCover("dry", small, dryOpts, 50, 400, 0),
-				structCover("chain", fam.Chain, dryOpts, false, 50, 0, 2, 0),
-				structCover("groups", fam.Groups, dryOpts, false, 10, 0, 2, 0),
+				structCover("chain", fam.Chain, dryOpts, false, 50, 500, 2, 0),
+				structCover("groups", fam.Groups, dryOpts, false, 10, 40, 2, 0),
 				digraphCover("digraphs-req", "req", dryOpts, 60, 800),
 			},
 			traces: func(tier string) []tracePlan {
@@ -546,7 +546,7 @@ func init() {
 				randCover("viz", small, rec, 50, 400, 1),
 				libCover("lib", recBoth, false, 10, 100, 2),
 				libGroupsCover(recBoth, false, 80, 1500, 1),
-				structCover("groups", fam.Groups, rec, false, 8, 0, 2, 1),
+				structCover("groups", fam.Groups, rec, false, 8, 40, 2, 1),
 				digraphCover("digraphs-req", "req", rec, 40, 600),
 			},
 			traces: stdTraces("viz", medium, 0.1, stdOpts)})})
@@ -557,8 +557,8 @@ func init() {
 		run: genericRun(stagePlan{
 			covers: []coverPlan{
 				randCover("callbacks", tweak(small, func(f *fam.Features) { f.PCb = 0.7 }), recBoth, 50, 500, 2),
-				structCover("chain", fam.Chain, recBoth, true, 20, 0, 2, 2),
-				structCover("groups", fam.Groups, recBoth, true, 6, 0, 2, 1),
+				structCover("chain", fam.Chain, recBoth, true, 20, 500, 2, 2),
+				structCover("groups", fam.Groups, recBoth, true, 6, 40, 2, 1),
 				libCover("lib", recBoth, true, 6, 60, 2),
 				libGroupsCover(recBoth, true, 30, 600, 1),
 			},
